@@ -17,7 +17,10 @@ from vlib import mbfnum as M
 
 ID = 'C04'
 LEVEL = 'exploration'
-RULE = ("Operand pairs of equal type (single, double) for each of + - * / from a class mix: uniform "
+RULE = ("Operand pairs for each of + - * /: both single, both double, and mixed (integer/single/double in "
+        "all 7 unequal-or-integer pairings, both orders: the C04 pair classes generated in the wider "
+        "type and carried to the narrower operand type, independent pool values, and equal/adjacent "
+        "values across types). Equal-type pairs come from a class mix: uniform "
         "random patterns; exponents differing by 0,1,2,3,7,8,9,23,24,25 (and 31..33, 55..57 for "
         "doubles) with shaped significands (random, sparse, dense, special low bytes, runs); "
         "near-cancellation (b = -a with 0-3 low bits flipped, optionally one binade apart); extreme "
@@ -28,7 +31,9 @@ RULE = ("Operand pairs of equal type (single, double) for each of + - * / from a
         "result is not representable in the operand type (rounding happened), or it is outside the "
         "representable range, or the divisor is zero; distinct = distinct (op, a, b).")
 ASSUMPTIONS = [
-    "unit in the last place is that of the returned value",
+    "the result must have the wider operand type (mixed-type operations promote before computing; "
+    "integers promote to single) and the unit in the last place is that of the returned value in that "
+    "format; integer op integer may return an Integer, judged as the equal single value",
     "exact result r with MAX < |r| < 2^127 (MAX = largest finite number): Overflow or a value within "
     "the error bound are both accepted; |r| >= 2^127 requires Overflow; |r| <= MAX forbids it",
     "result 0 is accepted iff |r| < 2^-128; a non-zero result for |r| < 2^-128 is accepted if it is "
@@ -55,13 +60,18 @@ def check_case(case):
     if case['u'] != 'arith':
         raise ValueError(case['u'])
     op, a, b, route = case['op'], M.unlat(case['a']), M.unlat(case['b']), case['route']
-    n = len(a)
-    assert len(b) == n and n in (4, 8)
+    # n = size of the type the property demands for the result: the wider operand type
+    # (integers are promoted to single for + - * /)
+    n = max(len(a), len(b), 4)
+    both_int = len(a) == 2 and len(b) == 2
     x, y = mbf.decode(a), mbf.decode(b)
     tname = M.TNAME[n]
     key = '%s.%s.' % (OPNAME[op], tname)
-    where = '%s %s %s [%s %s]' % (M.hx(a), op, M.hx(b), tname, route)
+    pairing = '%s-%s' % (M.TNAME[len(a)], M.TNAME[len(b)])
+    where = '%s %s %s [%s %s]' % (M.hx(a), op, M.hx(b), pairing, route)
     res.label('%s.%s.%s' % (OPNAME[op], tname, route))
+    if len(a) != len(b) or both_int:
+        res.label('mixed.' + pairing)
     obs = M.binop_observe(op, a, b, route)
     if obs[0] == 'budget':
         res.inconclusive = True
@@ -108,8 +118,9 @@ def check_case(case):
             res.fail(key + 'soft-overflow-value', '%s -> hard error in direct mode' % where)
         return res
     ret = obs[1]
-    if len(ret) != n:
-        res.fail(key + 'type', '%s -> %s (%d bytes)' % (where, M.hx(ret), len(ret)))
+    if len(ret) != n and not (both_int and len(ret) == 2):
+        res.fail(key + 'type', '%s -> %s (%d bytes), the wider operand type has %d' % (
+            where, M.hx(ret), len(ret), n))
         return res
     rv = mbf.decode(ret)
     if abs(r) >= TWO127:
@@ -127,7 +138,8 @@ def check_case(case):
         elif r != 0:
             res.label('underflow-to-zero')
         return res
-    u = mbf.ulp(ret)
+    # unit in the last place of the returned value *in the demanded result format*
+    u = mbf.ulp(ret) if len(ret) == n else mbf.ulp_of_value(rv, n)
     e = abs(rv - r)
     if op in '+-':
         if e > 2 * u:
@@ -144,8 +156,9 @@ def check_case(case):
 # ---------------------------------------------------------------------------------------------
 # bulk
 
-def fast_verdict(op, a, b, n, obs, err):
-    """-> (bad clause or None, non-trivial flag, label)."""
+def fast_verdict(op, a, b, obs, err):
+    """-> (bad clause or None, non-trivial flag, label); result format = wider operand type."""
+    n = max(len(a), len(b), 4)
     da, db = M.dy(a), M.dy(b)
     if op == '/' and db[0] == 0:
         return (None if err == 11 else 'divzero'), True, 'division-by-zero'
@@ -164,7 +177,11 @@ def fast_verdict(op, a, b, n, obs, err):
     if err is not None:
         return (None if (err == 6 and above) else 'spurious-error'), nt, lab
     if len(obs) != n:
-        return 'type', nt, lab
+        if not (len(obs) == 2 and len(a) == 2 and len(b) == 2):
+            return 'type', nt, lab
+        # integer result of integer operands: judge it in single format
+        v = M.dy(obs)[0]
+        obs = M.enc_int_value(v, 4)
     if M.rcmp_abs(r, M.TWO127) >= 0:
         return 'overflow-missing', nt, lab
     if obs[-1] == 0:
@@ -183,13 +200,49 @@ def fast_verdict(op, a, b, n, obs, err):
     return ('bound' if bad else None), nt, lab
 
 
+MIXED = [(2, 2), (2, 4), (4, 2), (2, 8), (8, 2), (4, 8), (8, 4)]
+
+
+def narrow(rng, b, n):
+    """Carry a float pattern to a narrower operand type keeping its exponent (or a nearby integer)."""
+    if len(b) == n:
+        return b
+    if n == 4:
+        return b[4:]
+    d = M.dy(b)
+    if rng.random() < 0.5 and M.dcmp(M.dabs(d), (40000, 0)) < 0:
+        t = M.dround_half_away(d)
+        return (max(-32768, min(32767, t)) & 0xffff).to_bytes(2, 'little')
+    return M.gen_int(rng)[0]
+
+
+def gen_mixed(rng, op):
+    """(a, b, class): operands of different types (all pairings, both orders) or two integers."""
+    na, nb = rng.choice(MIXED)
+    nw = max(na, nb, 4)
+    c = rng.randrange(10)
+    if c < 5:
+        a, b, cls = M.gen_pair(rng, nw, op)
+        return narrow(rng, a, na), narrow(rng, b, nb), cls
+    if c < 8:
+        return M.gen_value(rng, na)[0], M.gen_value(rng, nb)[0], 'independent'
+    a = M.gen_value(rng, na)[0]
+    b = M.carry_to(a, nb, rng)
+    if rng.random() < 0.5:
+        b = M.neighbour(b, rng.choice((1, -1, 2, -2)))
+    return a, b, 'related'
+
+
 def run_pairs(n):
+    """n = 4 or 8: both operands of that type; n = 0: mixed-type operands."""
     def run(shard, nshards, tier, seed, ev):
         rng = random.Random(seed)
-        count = (16000 if tier == 'quick' else 500000)
+        count = (12000 if tier == 'quick' else 500000)
+        if n == 0:
+            count = (10000 if tier == 'quick' else 400000)
         A = M.api()
         mk, BErr, binop = A.mk, A.BASICError, A.binop
-        tname = M.TNAME[n]
+        tname = M.TNAME[n] if n else 'mixed'
         seen = set()
         labels = {}
         cnt = nt = 0
@@ -199,7 +252,7 @@ def run_pairs(n):
                 M.arm(180.0)
             for op in '+-*/':
               try:
-                  a, b, cls = M.gen_pair(rng, n, op)
+                  a, b, cls = M.gen_pair(rng, n, op) if n else gen_mixed(rng, op)
                   cnt += 1
                   try:
                       obs = bytes(binop[op](mk(a), mk(b)).to_bytes())
@@ -210,7 +263,7 @@ def run_pairs(n):
                       ev.fail(M.frame_key(e), {'u': 'arith', 'op': op, 'a': M.lat(a), 'b': M.lat(b),
                                                'route': 'api'}, '%s %s %s' % (M.hx(a), op, M.hx(b)))
                       continue
-                  bad, isnt, lab = fast_verdict(op, a, b, n, obs, err)
+                  bad, isnt, lab = fast_verdict(op, a, b, obs, err)
                   if err is not None and soft_left > 0:
                       # the same operation with the console attached: message + signed maximum
                       soft_left -= 1
@@ -218,6 +271,9 @@ def run_pairs(n):
                       ev.record(scase, check_case(scase))
                   k = '%s.%s.%s' % (OPNAME[op], tname, lab)
                   labels[k] = labels.get(k, 0) + 1
+                  if not n:
+                      k = 'mixed.%s-%s' % (M.TNAME[len(a)], M.TNAME[len(b)])
+                      labels[k] = labels.get(k, 0) + 1
                   k = 'class.' + cls
                   labels[k] = labels.get(k, 0) + 1
                   if err == 6:
@@ -234,7 +290,7 @@ def run_pairs(n):
                           ev.excluded += 1
                           ev.fail('mul.double.underflow-band', case, '%s * %s -> 0' % (M.hx(a), M.hx(b)))
                       else:
-                          ev.fail('%s.%s.%s' % (OPNAME[op], tname, bad), case,
+                          ev.fail('%s.%s.%s' % (OPNAME[op], M.TNAME[max(len(a), len(b), 4)], bad), case,
                                   '%s %s %s -> %s err=%r' % (M.hx(a), op, M.hx(b), obs and M.hx(obs), err))
                   if (cnt % 499) == 0:
                       case = case or {'u': 'arith', 'op': op, 'a': M.lat(a), 'b': M.lat(b), 'route': 'api'}
@@ -262,6 +318,8 @@ def strat_arith():
     def build(op, n, mode, sd, raw_a, raw_b, route):
         if mode == 0:
             a, b = raw_a[:n], raw_b[:n]
+        elif mode in (1, 2):
+            a, b, _ = gen_mixed(random.Random(sd), op)
         else:
             a, b, _ = M.gen_pair(random.Random(sd), n, op)
         return {'u': 'arith', 'op': op, 'a': M.lat(a), 'b': M.lat(b), 'route': route}
@@ -275,6 +333,7 @@ def units(tier):
     return [
         Unit('single-pairs', 'bulk', shards=16, run=run_pairs(4)),
         Unit('double-pairs', 'bulk', shards=16, run=run_pairs(8)),
+        Unit('mixed-pairs', 'bulk', shards=16, run=run_pairs(0)),
         Unit('arith-eval', 'hyp', shards=16, examples={'quick': 500, 'thorough': 20000},
              strategy=strat_arith),
     ]
@@ -299,9 +358,20 @@ REGRESSIONS = [
     _a('+', '00000081', '00008081'),                              # exact cancellation
     # 1048576!-.0625 returns 1048576 although 1048575.9375 is representable: 0.5 ulp, inside the bound
     _a('-', '00000095', '0000007d', 'eval'),
+    # third-wave seeded change: S!*D# / I%*D# must be computed and returned in double precision
+    _a('*', '00000081', '15cd5b07d2ff1d81'),                      # 1! * 1.2345678901234#
+    _a('*', '0300', '15cd5b07d2ff1d81', 'eval'),                  # 3% * double
+    _a('*', '15cd5b07d2ff1d81', '00004082'),                      # D# * S!
+    _a('/', '0100', '0000000000004082'),                          # 1% / 3#
+    _a('+', 'ff7f', '0100'),                                      # 32767% + 1% = 32768 (single)
+    _a('/', '0700', '0200', 'prog'),                              # 7% / 2% = 3.5
 ]
 
 KILLS = [
+    'seeded/C04c (values.mul takes the precision from the left operand only) => mul.double.type, mul.double.spurious-error (mixed-pairs); add/mul.double.bound through the parser',
+    'mirrored: values.mul takes the precision from the right operand only => mul.double.type, mul.double.spurious-error',
+    'values.div takes the precision from the left operand only => div.double.type, div.double.spurious-error',
+    'values.add rounds a Double right operand to the Single left operand => add.double.type (mixed-pairs); add.double.bound (1e9 double ulps) and add.double.soft-overflow-value through arith-eval',
     'seeded/C04 (0/0 returns 0 without Division by zero) => div.single.divzero',
     'numbers.Float.imul: revert 9479e0ab (`lexp < -31` for doubles too) => mul.double.underflow-band (12790 hits/quick)',
     'numbers.Float.imul: `lexp <= -(self._shift + 8)` (flush one binade more) => mul.double.underflow-band',
